@@ -186,7 +186,8 @@ def main():
         cmd = [exe, suite["name"], tier, str(seed), sdir] + suite.get("args", [])
         if replay:
             cmd += ["--replay", os.path.abspath(replay)]
-        rc, out = run(cmd, cwd=HARN, timeout=suite.get("timeout", 3000))
+        rc, out = run(cmd, cwd=HARN, timeout=suite.get("timeout", 3000),
+                      env={"VERIF_DRIVER": os.path.join(LEAN, ".lake/build/bin/driver")})
         if rc != 0 or not os.path.exists(os.path.join(sdir, "report.json")):
             rp = write_replay("harness", {"broken": " ".join(cmd), "raw": out[-3000:]})
             violations.append((rp, " no-failing-input-found"))
@@ -202,9 +203,14 @@ def main():
         # model side
         cases = os.path.join(sdir, "cases.txt")
         if os.path.getsize(cases) > 0:
-            with open(cases) as fin, open(os.path.join(sdir, "model.txt"), "w") as fout:
-                p = subprocess.run([os.path.join(LEAN, ".lake/build/bin/driver")], stdin=fin, stdout=fout,
-                                   stderr=subprocess.PIPE, timeout=3000)
+            class _P:  # the suite ran the driver itself (two-stage protocols) and post-processed its answers
+                returncode = 0
+                stderr = b""
+            p = _P()
+            if not os.path.exists(os.path.join(sdir, "model.txt")):
+                with open(cases) as fin, open(os.path.join(sdir, "model.txt"), "w") as fout:
+                    p = subprocess.run([os.path.join(LEAN, ".lake/build/bin/driver")], stdin=fin, stdout=fout,
+                                       stderr=subprocess.PIPE, timeout=3000)
             cl = open(cases).read().split("\n")
             il = open(os.path.join(sdir, "impl.txt")).read().split("\n")
             ml = open(os.path.join(sdir, "model.txt")).read().split("\n")
@@ -214,7 +220,8 @@ def main():
                 mismatches.append({"suite": suite["name"], "case": "<driver crashed or line count differs>",
                                    "impl": str(len(il)), "model": str(len(ml)) + " " + p.stderr.decode()[-500:]})
             for i in range(min(n, len(ml) - 1)):
-                if il[i] != ml[i]:
+                mi = "panic" if ml[i].startswith("panic") else ml[i]
+                if il[i] != mi:
                     mismatches.append({"suite": suite["name"], "case": cl[i], "impl": il[i], "model": ml[i]})
         for f in rep["oracle_failures"]:
             k = match_known(pid, f, known)
